@@ -1,0 +1,31 @@
+//go:build verif
+
+package dss
+
+import "sort"
+
+// VerifTrace, when set, receives one event per public call of a DSS object
+// (build tag verif only; used by the /verif trace validation).
+var VerifTrace func(ev string, kv ...any)
+
+func verifTrace(ev string, kv ...any) {
+	if VerifTrace != nil {
+		VerifTrace(ev, kv...)
+	}
+}
+
+// VerifParams returns the static parameters of the object: number of
+// participants, threshold, own index.
+func (d *DSS) VerifParams() (n int, t uint32, index uint32) {
+	return len(d.participants), d.T, d.index
+}
+
+// VerifState projects the collector state: the signer indices whose partial
+// signature is held, the number of stored partials, and the signed flag.
+func (d *DSS) VerifState() (held []uint32, stored int, signed bool) {
+	for i := range d.partialsIdx {
+		held = append(held, i)
+	}
+	sort.Slice(held, func(a, b int) bool { return held[a] < held[b] })
+	return held, len(d.partials), d.signed
+}
